@@ -84,6 +84,105 @@ Definition the_additional (have : ip) (k : oracle) : option ip :=
   | _ => None
   end.
 
+(* --- convergeBalancer, stage by stage --- *)
+
+(* A: the recorded addresses, if their family still fits the cluster IPs *)
+Definition stageA (c0 : cv) (s : svc) (o : svcobj) : cv * list ip :=
+  match o_status o with
+  | [] => (clear c0 s, [])
+  | lb => if family_changed (alloc_fam lb) (r_fam (o_req o)) (r_pol (o_req o)) then (clear c0 s, []) else (c0, lb)
+  end.
+
+(* B: re-validate them against the current configuration and the service's wishes.
+   inr: early return with ErrConverge (invalid requested addresses: the state reached so far is kept) *)
+Definition stageB (c1 : cv) (lb1 : list ip) (s : svc) (o : svcobj) : (cv * list ip) + cv :=
+  match lb1 with
+  | [] => inl (c1, [])
+  | _ =>
+      let '(c2, lb2) :=
+        match assign (cv_mem c1) s (o_req o) lb1 with
+        | (a', ROk _) => ({| cv_mem := a'; cv_status := cv_status c1; cv_annot := cv_annot c1 |}, lb1)
+        | _ => (clear c1 s, [])
+        end in
+      let '(c3, lb3) :=
+        match lb2, o_want_pool o with
+        | _ :: _, Some p => if opt_pool_eqb (pool_of (cv_mem c2) s) (Some p) then (c2, lb2) else (clear c2 s, [])
+        | _, _ => (c2, lb2)
+        end in
+      match o_want o with
+      | WInvalid => inr c3
+      | WIps d => if equal_ips lb3 d then inl (c3, sort2 lb3) else inl (clear c3 s, [])
+      | WNone => inl (c3, lb3)
+      end
+  end.
+
+(* C: PreferDualStack with one address: try the other family from the same pool.
+   None: the observed allocation is not admitted by the allocator's spec *)
+Definition stageC (c3 : cv) (lb3 : list ip) (s : svc) (r : req) (k : oracle) : option (cv * list ip) :=
+  match lb3 with
+  | [have] =>
+      if additional_applies r lb3 then
+        match pool_of (cv_mem c3) s with
+        | Some pn =>
+            match alloc_op (cv_mem c3) (OAdditional s r have pn (the_additional have k)) with
+            | None => None
+            | Some (a', ROk [x]) => Some ({| cv_mem := a'; cv_status := cv_status c3; cv_annot := cv_annot c3 |}, [have; x])
+            | Some (a', _) => Some ({| cv_mem := a'; cv_status := cv_status c3; cv_annot := cv_annot c3 |}, lb3)
+            end
+        | None => Some (c3, lb3)
+        end
+      else Some (c3, lb3)
+  | _ => Some (c3, lb3)
+  end.
+
+(* D: nothing usable recorded: allocateIPs.  inr: ErrConverge *)
+Definition stageD (c4 : cv) (lb4 : list ip) (s : svc) (o : svcobj) (k : oracle) : option (cv * list ip + cv) :=
+  let r := o_req o in
+  match lb4 with
+  | _ :: _ => Some (inl (c4, lb4))
+  | [] =>
+      match o_want o with
+      | WInvalid => Some (inr c4)
+      | WIps d =>
+          if negb (match alloc_fam d with Some f => sfam_eqb f (r_fam r) | None => false end) then Some (inr c4)
+          else match assign (cv_mem c4) s r d with
+               | (a', ROk _) =>
+                   let c5 := {| cv_mem := a'; cv_status := cv_status c4; cv_annot := cv_annot c4 |} in
+                   match o_want_pool o with
+                   | Some p => if opt_pool_eqb (pool_of a' s) (Some p) then Some (inl (c5, d))
+                               else Some (inr {| cv_mem := unassign a' s; cv_status := cv_status c4; cv_annot := cv_annot c4 |})
+                   | None => Some (inl (c5, d))
+                   end
+               | _ => Some (inr c4)
+               end
+      | WNone =>
+          let o' := match o_want_pool o with
+                    | Some p => OAllocateFromPool s r p (option_map snd (k_final k))
+                    | None => OAllocate s r (k_final k)
+                    end in
+          match alloc_op (cv_mem c4) o' with
+          | None => None
+          | Some (a', ROk ips) => Some (inl ({| cv_mem := a'; cv_status := cv_status c4; cv_annot := cv_annot c4 |}, ips))
+          | Some (a', _) => Some (inr {| cv_mem := a'; cv_status := cv_status c4; cv_annot := cv_annot c4 |})
+          end
+      end
+  end.
+
+(* E: record the result in the working copy *)
+Definition stageE (c5 : cv) (lb5 : list ip) (s : svc) : cres :=
+  match lb5 with
+  | [] => CR (clear c5 s) false
+  | _ =>
+      match pool_of (cv_mem c5) s with
+      | Some pn =>
+          match find_pool (s_pools (cv_mem c5)) pn with
+          | Some _ => CR {| cv_mem := cv_mem c5; cv_status := lb5; cv_annot := Some pn |} true
+          | None => CR (clear c5 s) false
+          end
+      | None => CR (clear c5 s) false
+      end
+  end.
+
 Definition converge (a : st) (s : svc) (o : svcobj) (k : oracle) : cres :=
   let r := o_req o in
   let c0 := {| cv_mem := a; cv_status := o_status o; cv_annot := o_annot o |} in
@@ -92,100 +191,17 @@ Definition converge (a : st) (s : svc) (o : svcobj) (k : oracle) : cres :=
   else if negb (o_cluster_ok o) then CR (clear c0 s) false
   else if is_require (r_pol r) && negb (is_dual (r_fam r)) then CR (clear c0 s) false
   else
-    (* the recorded addresses, if their family still fits *)
-    let '(c1, lb1) :=
-      match o_status o with
-      | [] => (clear c0 s, [])
-      | lb => if family_changed (alloc_fam lb) (r_fam r) (r_pol r) then (clear c0 s, []) else (c0, lb)
-      end in
-    (* re-validate them against the current configuration and the service's wishes *)
-    let stageB : (cv * list ip) + cv :=    (* inr: early return with ErrConverge *)
-      match lb1 with
-      | [] => inl (c1, [])
-      | _ =>
-          let '(c2, lb2) :=
-            match assign (cv_mem c1) s r lb1 with
-            | (a', ROk _) => ({| cv_mem := a'; cv_status := cv_status c1; cv_annot := cv_annot c1 |}, lb1)
-            | _ => (clear c1 s, [])
-            end in
-          let '(c3, lb3) :=
-            match lb2, o_want_pool o with
-            | _ :: _, Some p => if opt_pool_eqb (pool_of (cv_mem c2) s) (Some p) then (c2, lb2) else (clear c2 s, [])
-            | _, _ => (c2, lb2)
-            end in
-          match o_want o with
-          | WInvalid => inr c3    (* invalid requested addresses: the state reached so far is kept *)
-          | WIps d => if equal_ips lb3 d then inl (c3, sort2 lb3) else inl (clear c3 s, [])
-          | WNone => inl (c3, lb3)
-          end
-      end in
-    match stageB with
+    let '(c1, lb1) := stageA c0 s o in
+    match stageB c1 lb1 s o with
     | inr c3 => CR c3 false
     | inl (c3, lb3) =>
-        (* PreferDualStack with one address: try the other family from the same pool *)
-        let stageC : option (cv * list ip) :=
-          match lb3 with
-          | [have] =>
-              if additional_applies r lb3 then
-                match pool_of (cv_mem c3) s with
-                | Some pn =>
-                    let ch := the_additional have k in
-                    match alloc_op (cv_mem c3) (OAdditional s r have pn ch) with
-                    | None => None
-                    | Some (a', ROk [x]) => Some ({| cv_mem := a'; cv_status := cv_status c3; cv_annot := cv_annot c3 |}, [have; x])
-                    | Some (a', _) => Some ({| cv_mem := a'; cv_status := cv_status c3; cv_annot := cv_annot c3 |}, lb3)
-                    end
-                | None => Some (c3, lb3)
-                end
-              else Some (c3, lb3)
-          | _ => Some (c3, lb3)
-          end in
-        match stageC with
+        match stageC c3 lb3 s r k with
         | None => CMismatch
         | Some (c4, lb4) =>
-            (* nothing usable recorded: allocate *)
-            let stageD : option (cv * list ip + cv) :=   (* inr: ErrConverge *)
-              match lb4 with
-              | _ :: _ => Some (inl (c4, lb4))
-              | [] =>
-                  match o_want o with
-                  | WInvalid => Some (inr c4)
-                  | WIps d =>
-                      if negb (match alloc_fam d with Some f => sfam_eqb f (r_fam r) | None => false end) then Some (inr c4)
-                      else match assign (cv_mem c4) s r d with
-                           | (a', ROk _) =>
-                               let c5 := {| cv_mem := a'; cv_status := cv_status c4; cv_annot := cv_annot c4 |} in
-                               match o_want_pool o with
-                               | Some p => if opt_pool_eqb (pool_of a' s) (Some p) then Some (inl (c5, d))
-                                           else Some (inr {| cv_mem := unassign a' s; cv_status := cv_status c4; cv_annot := cv_annot c4 |})
-                               | None => Some (inl (c5, d))
-                               end
-                           | _ => Some (inr c4)
-                           end
-                  | WNone =>
-                      let o' := match o_want_pool o with
-                                | Some p => OAllocateFromPool s r p (option_map snd (k_final k))
-                                | None => OAllocate s r (k_final k)
-                                end in
-                      match alloc_op (cv_mem c4) o' with
-                      | None => None
-                      | Some (a', ROk ips) => Some (inl ({| cv_mem := a'; cv_status := cv_status c4; cv_annot := cv_annot c4 |}, ips))
-                      | Some (a', _) => Some (inr {| cv_mem := a'; cv_status := cv_status c4; cv_annot := cv_annot c4 |})
-                      end
-                  end
-              end in
-            match stageD with
+            match stageD c4 lb4 s o k with
             | None => CMismatch
             | Some (inr c5) => CR c5 false
-            | Some (inl (c5, lb5)) =>
-                match pool_of (cv_mem c5) s with
-                | Some pn =>
-                    match find_pool (s_pools (cv_mem c5)) pn with
-                    | Some _ => CR {| cv_mem := cv_mem c5; cv_status := lb5; cv_annot := Some pn |} true
-                    | None => CR (clear c5 s) false
-                    end
-                | None => CR (clear c5 s) false
-                end
+            | Some (inl (c5, lb5)) => stageE c5 lb5 s
             end
         end
     end.
